@@ -2,6 +2,7 @@
 package c19
 
 import (
+	"time"
 	"strings"
 	"bytes"
 	"crypto/rand"
@@ -349,6 +350,84 @@ func run(c *h.Ctx, cs Case) {
 				}
 			}
 		}
+	}
+	// two tokens that are the same in EVERYTHING a caller can fix - principals, command, nonce, issue time (none or a
+	// fixed one), expiration - built from option lists in which the fixing options stand before or behind the encrypted
+	// one: two encryptions of the same value still differ (nothing about the token makes the encryption repeatable)
+	{
+		iss0, aud0 := keys.Principal(0).DID, keys.Principal(1).DID
+		fixedNonce := []byte("fixed-nonce-12b")
+		at := time.Unix(4102444800, 0)
+		encI := func() invocation.Option {
+			if cs.AsBytes {
+				return invocation.WithEncryptedMetaBytes("secret", cs.Plain, cs.Key)
+			}
+			return invocation.WithEncryptedMetaString("secret", string(cs.Plain), cs.Key)
+		}
+		encD := func() delegation.Option {
+			if cs.AsBytes {
+				return delegation.WithEncryptedMetaBytes("secret", cs.Plain, cs.Key)
+			}
+			return delegation.WithEncryptedMetaString("secret", string(cs.Plain), cs.Key)
+		}
+		ictx := [][]invocation.Option{
+			{invocation.WithNonce(fixedNonce), invocation.WithoutInvokedAt()},
+			{invocation.WithoutInvokedAt(), invocation.WithNonce(fixedNonce)},
+			{invocation.WithNonce(fixedNonce)},
+			{invocation.WithoutInvokedAt()},
+			{invocation.WithEmptyNonce(), invocation.WithoutInvokedAt()},
+			{invocation.WithNonce(fixedNonce), invocation.WithInvokedAt(at.Add(-time.Hour)), invocation.WithExpiration(at)},
+		}
+		for ci, fix := range ictx {
+			for _, encFirst := range []bool{false, true} {
+				mk := func() (*invocation.Token, error) {
+					opts := append(append([]invocation.Option{}, fix...), encI())
+					if encFirst {
+						opts = append([]invocation.Option{encI()}, fix...)
+					}
+					return invocation.New(iss0, aud0, command.MustParse("/foo"), []cid.Cid{}, opts...)
+				}
+				a, ea := mk()
+				b, eb := mk()
+				if ea != nil || eb != nil {
+					continue
+				}
+				ca, _ := a.Meta().GetBytes("secret")
+				cb, _ := b.Meta().GetBytes("secret")
+				if len(ca) > 0 && bytes.Equal(ca, cb) {
+					c.Fail("C19/nonce-reuse/identical-tokens/inv", "two invocations with the same fixed nonce / issue time / expiration (option context %d, encrypted option first: %v) carry byte-identical ciphertexts of the same value", ci, encFirst)
+				}
+				noteNonce(c, ca)
+				noteNonce(c, cb)
+			}
+		}
+		dctx := [][]delegation.Option{
+			{delegation.WithNonce(fixedNonce)},
+			{delegation.WithNonce(fixedNonce), delegation.WithExpiration(at), delegation.WithNotBefore(at.Add(-2 * time.Hour))},
+			{delegation.WithExpiration(at)},
+		}
+		for ci, fix := range dctx {
+			for _, encFirst := range []bool{false, true} {
+				mk := func() (*delegation.Token, error) {
+					opts := append(append([]delegation.Option{}, fix...), encD())
+					if encFirst {
+						opts = append([]delegation.Option{encD()}, fix...)
+					}
+					return delegation.New(iss0, aud0, command.MustParse("/foo"), policy.Policy{}, opts...)
+				}
+				a, ea := mk()
+				b, eb := mk()
+				if ea != nil || eb != nil {
+					continue
+				}
+				ca, _ := a.Meta().GetBytes("secret")
+				cb, _ := b.Meta().GetBytes("secret")
+				if len(ca) > 0 && bytes.Equal(ca, cb) {
+					c.Fail("C19/nonce-reuse/identical-tokens/dlg", "two delegations with the same fixed nonce / bounds (option context %d, encrypted option first: %v) carry byte-identical ciphertexts of the same value", ci, encFirst)
+				}
+			}
+		}
+		c.P.Class("identical-tokens")
 	}
 	if err := m.AddEncrypted("n", 42, cs.Key); err == nil {
 		c.Fail("C19/non-encryptable-accepted", "AddEncrypted accepted an int")
